@@ -27,7 +27,10 @@ Im(n, p, t, id) == [name |-> n, protocol |-> p, type |-> t,
                     fields |-> IF id = 0 THEN <<>> ELSE <<[name |-> "id", value |-> [i |-> id]]>>, signals |-> <<>>]
 ImplPool == << Im("A", "can", "A", 1), Im("A2", "can", "A", 2), Im("A2", "can", "A", 1), Im("A", "uart", "A", 1),
                Im("Missing", "can", "Missing", 2), Im("A", "can", "A", 0), Im("A2", "can", "A", 0), Im("A", "uart", "A", 0),
-               Im("B", "can", "B", 1), Im("A2", "uart", "Missing", 0) >>
+               Im("B", "can", "B", 1), Im("A2", "uart", "Missing", 0),
+               (* a frame identifier of exactly 0, written out *)
+               [Im("A", "can", "A", 1) EXCEPT !.fields = <<[name |-> "id", value |-> [i |-> 0]]>>],
+               [Im("A2", "can", "A", 1) EXCEPT !.fields = <<[name |-> "id", value |-> [i |-> 0]]>>] >>
 ImplLists == { <<>> } \cup { <<ImplPool[i]>> : i \in 1..Len(ImplPool) }
              \cup { <<ImplPool[i], ImplPool[j]>> : i \in 1..Len(ImplPool), j \in 1..Len(ImplPool) } 
 
